@@ -275,7 +275,7 @@ def small_scope(limit_len, max_nodes=3):
 def run(ctx):
     stats = collections.Counter()
     samples, seen, nontriv = [], set(), set()
-    budget = 38 if ctx.quick() else 540
+    budget = 38 if ctx.quick() else 420
     target = 300 if ctx.quick() else 10000
     batch = 25
     n_hist = 0
@@ -301,16 +301,16 @@ def run(ctx):
     exhaustive = None
     cross = 0
     if not ctx.quick():
-        small = small_scope(4)
+        small = small_scope(5)
         mres = model.run_cases([[50, h] for h in small], chunk=500)
         done = 0
         for h, mr in zip(small, mres):
-            if ctx.elapsed() > 800 or len(ctx.violations) >= 10:
+            if ctx.elapsed() > 780 or len(ctx.violations) >= 10:
                 break
             check_history(ctx, h, mr, stats)
             done += 1
         exhaustive = {"alphabet": "create; copy(p, linkback 0/1); register(n, new method of signature 0); unregister(n, last); use(n); <= 3 nodes",
-                      "max_len": 5, "histories": len(small), "checked": done, "complete": done == len(small)}
+                      "max_len": 6, "histories": len(small), "checked": done, "complete": done == len(small)}
         sub = [[50, h] for h in all_cases[:40]]
         a = model.run_cases(sub)
         b = model.run_in_coq(sub)
